@@ -462,6 +462,7 @@ func (e *Engine) pathClean(p *Term) *Term {
 	e.axiomQ(Or(Eq(r, sl), Not(StrSuffixOf(sl, r))))
 	e.axiomQ(Not(StrContains(r, StrT("//"))))
 	e.axiomQ(Not(StrContains(r, StrT("/./"))))
+	e.axiomQ(Not(StrSuffixOf(StrT("/."), r)))
 	e.axiomQ(Iff(StrPrefixOf(sl, p), StrPrefixOf(sl, r)))
 	e.axiomQ(Implies(StrPrefixOf(sl, p), And(Not(StrContains(r, StrT("/../"))), Not(StrSuffixOf(StrT("/.."), r)))))
 	e.axiomQ(Implies(Eq(p, StrT("")), Eq(r, StrT("."))))
@@ -469,7 +470,7 @@ func (e *Engine) pathClean(p *Term) *Term {
 	e.axiomQ(Eq(uf("pathClean", StringS, sl), sl))
 	e.axiomQ(Eq(uf("pathClean", StringS, StrT(".")), StrT(".")))
 	e.axiomQ(Implies(Eq(p, sl), Eq(r, sl)))
-	e.note("axiom:filepath.Clean (non-empty, no trailing slash unless root, no //, no /./, rooted iff input rooted, no .. when rooted, idempotent)")
+	e.note("axiom:filepath.Clean (non-empty, no trailing slash unless root, no //, no /./, no trailing /., rooted iff input rooted, no .. when rooted, idempotent)")
 	return r
 }
 
